@@ -44,6 +44,9 @@ RULE = (
     "payload dtype: float64, or (whole-numbered fields: 30 % of them; 45 % of the affine linear cases get an "
     "integer-valued affine field whose interpolants at the targets are mostly not whole numbers) int64/int32/int16, "
     "or float32 (7 %); "
+    "publications: in 50 % of the linear+fill cases and 20 % of the other float64 cases the adapter first carries 1-2 EARLIER "
+    "publications (other affine / random fields; the first one mostly with NaN at 1-3 unmasked source locations) "
+    "and the case's field is the LAST publication through the same adapter; every finite publication is judged; "
     "'shifted' pairs: two structured grids (uniform / rectilinear / Esri, any layouts) of EQUAL dims and cell size "
     "(1/2..30) whose origins differ by whole cells and/or fractions of a cell, mostly at projected-coordinate "
     "magnitudes 1e5..1e7 (dyadic, exact), without explicit masks, RegridNearest; every case through "
@@ -465,7 +468,37 @@ def _gen_case(rng, kind):
         pick = rng.choice([[sd] for sd in sides] + [sides])
         reuse = {"sides": pick, "mode": rng.choice(["copy", "copy", "inplace", "inplace", "deepcopy", "same"]),
                  "touch": rng.choice(["read", "regrid"])}
-    return {"method": method, "fill": (rng.random() < 0.5) if method == "linear" else False, "reuse": reuse,
+    # earlier publications through the same adapter (the case's own values are the LAST publication)
+    history = None
+    fill = (rng.random() < 0.5) if method == "linear" else False
+    if (dtype in (None, "float32") or (method == "linear" and fill)) and \
+            rng.random() < (0.5 if (method == "linear" and fill) else 0.2):
+        dtype = None
+        history = []
+        unm_idx = [i for i in range(ns) if not (isinstance(smask, list) and smask[i])]
+        for k in range(rng.choice([1, 1, 2])):
+            if method == "linear" and (affine or rng.random() < 0.5):
+                hc0 = Fraction(rng.randint(-16, 16), 4)
+                hgrad = [Fraction(rng.randint(-8, 8), 4) for _ in range(d)]
+                haff = [fr(hc0), [fr(a) for a in hgrad]]
+                hv = [hc0 + sum(a * x for a, x in zip(hgrad, p)) for p in slocs]
+            elif method == "linear":
+                haff, hv = None, list(vals)
+            else:
+                haff, hv = None, [Fraction(rng.randint(1, 99)) for _ in range(ns)]
+            if isinstance(smask, list):
+                hv = [(vals[i] if smask[i] else hv[i]) for i in range(ns)]
+            if (k == 0 and rng.random() < 0.7) or rng.random() < 0.2:
+                # "not yet computed" elements: NaN at some unmasked (and possibly masked) source locations
+                for i in rng.sample(unm_idx, min(len(unm_idx), rng.choice([1, 1, 2, 3]))):
+                    hv[i] = None
+                if isinstance(smask, list) and rng.random() < 0.3:
+                    hv[rng.randrange(ns)] = None
+            elif method == "linear" and haff is None:
+                continue            # a finite non-affine earlier field could not be judged (no oracle table for it)
+            history.append({"vals": [None if v is None else fr(v) for v in hv], "affine": haff})
+        history = history or None
+    return {"method": method, "fill": fill, "reuse": reuse, "history": history,
             "via": "comp" if rng.random() < 0.3 else "bare", "tgrid": rng.choice(["adapter", "adapter", "info", "both"]),
             "sgrid": rng.choice(["info", "info", "both"]),
             "src": src, "tgt": tgt, "smask": smask, "src_ma": src_ma, "svals": [fr(v) for v in vals], "am": am, "down": down,
@@ -552,7 +585,7 @@ def _case(src, tgt, **kw):
     ns = int(np.prod(data_shape(src)))
     c = {"method": "nearest", "fill": False, "via": "bare", "tgrid": "adapter", "sgrid": "info", "src": src, "tgt": tgt,
          "smask": "flex", "src_ma": False, "svals": [fr(i + 1) for i in range(ns)], "am": None, "down": "flex",
-         "affine": None, "twin": False, "kind": "corpus", "reuse": None, "dtype": None}
+         "affine": None, "twin": False, "kind": "corpus", "reuse": None, "dtype": None, "history": None}
     c.update(kw)
     return c
 
@@ -614,6 +647,23 @@ CORPUS = [
     _case(_u([4, 3]), _u([5, 4], spacing=[fr(Fraction(3, 4)), fr(Fraction(1, 2))]), method="linear", smask=[False] * 12,
           svals=[fr(-7 + 2 * x - 3 * y) for x in range(4) for y in range(3)], affine=[fr(-7), [fr(2), fr(-3)]], dtype="int16"),
     _case(_u([4, 3]), _u([5, 4], spacing=[fr(Fraction(3, 4)), fr(Fraction(1, 2))]), dtype="int16"),
+    # several publications through ONE adapter, the first with NaN at interior source locations (seeded/C16_m): the
+    # later, finite affine fields must be interpolated inside the hull as if nothing had passed before
+    _case({"cls": "upoints", "points": [[fr(x), fr(y)] for x, y in [(0, 0), (3, 0), (0, 3), (3, 3), (1, 2), (2, 1)]], "order": "C"},
+          _u([4, 4], spacing=[fr(Fraction(5, 4)), fr(Fraction(3, 4))], origin=[fr(Fraction(-1, 2)), fr(Fraction(1, 4))], loc="CELLS"),
+          method="linear", fill=True, svals=[fr(Fraction(1, 2) + 3 * x + 2 * y) for x, y in [(0, 0), (3, 0), (0, 3), (3, 3), (1, 2), (2, 1)]],
+          affine=[fr(Fraction(1, 2)), [fr(3), fr(2)]],
+          history=[{"vals": [fr(1), fr(4), fr(4), fr(7), None, fr(4)], "affine": [fr(1), [fr(1), fr(1)]]}]),
+    _case(_u([4, 4]), _u([5, 5], spacing=[fr(Fraction(3, 4)), fr(Fraction(3, 4))], origin=[fr(Fraction(-1, 4)), fr(Fraction(-1, 4))], order="C", rev=True),
+          method="linear", fill=True, via="comp", smask=[True] + [False] * 15, src_ma=True,
+          svals=[fr(777 if (x, y) == (0, 0) else Fraction(1, 4) + x - 2 * y) for x in range(4) for y in range(4)],
+          affine=[fr(Fraction(1, 4)), [fr(1), fr(-2)]],
+          history=[{"vals": [(None if (x, y) in ((1, 1), (2, 2)) else fr(777 if (x, y) == (0, 0) else x + y)) for x in range(4) for y in range(4)],
+                    "affine": [fr(0), [fr(1), fr(1)]]},
+                   {"vals": [fr(777 if (x, y) == (0, 0) else 2 + 2 * x + y) for x in range(4) for y in range(4)],
+                    "affine": [fr(2), [fr(2), fr(1)]]}]),
+    _case(_u([4, 3]), _u([5, 4], spacing=[fr(Fraction(3, 4)), fr(Fraction(1, 2))]),
+          history=[{"vals": [None, None] + [fr(50 + i) for i in range(10)], "affine": None}]),
     # 1-D and 3-D
     _case(_u([6], inc=[False]), _u([4], spacing=[fr(Fraction(3, 2))], loc="CELLS")),
     _case(_u([3, 2, 2], order="C", rev=True, inc=[True, False, True]), _u([2, 2, 3], loc="CELLS", order="F")),
@@ -724,39 +774,54 @@ def _obtain_grids(case):
     return out[0], out[1], pre
 
 
-def _run_link(case, vals, grids=None):
+def _run_link(case, vals, grids=None, history=None):
+    """One regridding adapter, all publications of the case through it: the earlier ones (`history`, value None = NaN)
+    first, the case's own values last.  Returns (result of the last publication, source grid, results of the earlier
+    publications)."""
     sg, tg = grids if grids is not None else (build_grid(case["src"]), build_grid(case["tgt"]))
     sshape, tshape = tuple(data_shape(case["src"])), tuple(data_shape(case["tgt"]))
     tpos = flat_pos(case["tgt"])
     smask = _py_mask(case["smask"], sshape)
-    data = np.array([float(v) for v in vals], dtype=float).reshape(sshape)
-    if case.get("dtype"):
-        # payload stored with another dtype (integer dtypes only for whole-numbered fields: the cast is exact)
-        data = data.astype(case["dtype"])
-    if case["src_ma"]:
-        data = np.ma.array(data, mask=(smask if isinstance(smask, np.ndarray) else False))
+    day = 86400 * 10**6
+
+    def payload(vs):
+        data = np.array([float("nan") if v is None else float(v) for v in vs], dtype=float).reshape(sshape)
+        if case.get("dtype"):
+            # payload stored with another dtype (integer dtypes only for whole-numbered fields: the cast is exact)
+            data = data.astype(case["dtype"])
+        if case["src_ma"]:
+            data = np.ma.array(data, mask=(smask if isinstance(smask, np.ndarray) else False))
+        return data
+    datas = [payload(h) for h in (history or [])] + [payload(vals)]
+    n = len(datas)
     ada = _make_adapter(case, sg, tg)
     info_s = fm.Info(time=None if case["via"] == "comp" else T(0), grid=sg, mask=smask)
     info_t = fm.Info(time=None if case["via"] == "comp" else T(0), grid=tg if case["tgrid"] in ("info", "both") else None,
                      mask=_py_mask(case["down"], tshape))
     if case["via"] == "comp":
-        gen = fm.components.CallbackGenerator({"Out": (lambda t: data.copy(), info_s)}, start=T(0), step=D(86400 * 10**6))
-        con = fm.components.DebugConsumer({"In": info_t}, start=T(0), step=D(86400 * 10**6))
+        seen = {}
+
+        def rec(_name, d, t):
+            seen[int(round((t - T(0)).total_seconds() / 86400))] = _cells_of(d, tshape, tpos)
+        gen = fm.components.CallbackGenerator(
+            {"Out": (lambda t: datas[min(int(round((t - T(0)).total_seconds() / 86400)), n - 1)].copy(), info_s)},
+            start=T(0), step=D(day))
+        con = fm.components.DebugConsumer({"In": info_t}, start=T(0), step=D(day), callbacks={"In": rec})
         comp = fm.Composition([gen, con], print_log=False)
         gen.outputs["Out"] >> ada >> con.inputs["In"]
         try:
             comp.connect()
         except Exception as e:  # noqa
-            return ["err", err_class(e), "connect"], None
-        first = _cells_of(con.data["In"], tshape, tpos)
+            return ["err", err_class(e), "connect"], None, []
         try:
-            comp.run(end_time=T(86400 * 10**6))
+            comp.run(end_time=T(max(n - 1, 1) * day))
         except Exception as e:  # noqa
-            return ["err", err_class(e), "run"], None
-        second = _cells_of(con.data["In"], tshape, tpos)
-        if first != second:
-            return ["other", "second pull differs", [first, second]], None
-        return first, sg
+            return ["err", err_class(e), "run"], None, []
+        if sorted(seen) != list(range(max(n, 2))):
+            return ["other", "publications seen", sorted(seen)], None, []
+        if n == 1 and seen[0] != seen[1]:
+            return ["other", "second pull differs", [seen[0], seen[1]]], None, []
+        return seen[n - 1], sg, [seen[i] for i in range(n - 1)]
     out = fm.Output(name="Out")
     inp = fm.Input(name="In")
     out >> ada >> inp
@@ -765,16 +830,19 @@ def _run_link(case, vals, grids=None):
     try:
         inp.exchange_info(info_t)
     except Exception as e:  # noqa
-        return ["err", err_class(e), "exchange"], None
-    try:
-        out.push_data(data, T(0))
-    except Exception as e:  # noqa
-        return ["err", err_class(e), "push"], None
-    try:
-        r = inp.pull_data(T(0))
-    except Exception as e:  # noqa
-        return ["err", err_class(e), "pull"], None
-    return _cells_of(r, tshape, tpos), sg
+        return ["err", err_class(e), "exchange"], None, []
+    results = []
+    for i, data in enumerate(datas):
+        try:
+            out.push_data(data, T(i * day))
+        except Exception as e:  # noqa
+            return ["err", err_class(e), "push"], None, results
+        try:
+            r = inp.pull_data(T(i * day))
+        except Exception as e:  # noqa
+            return ["err", err_class(e), "pull"], None, results
+        results.append(_cells_of(r, tshape, tpos))
+    return results[-1], sg, results[:-1]
 
 
 def _flat(case):
@@ -803,13 +871,16 @@ def run_impl(case):
     fl = _flat(case)
     vals = [fq(v) for v in case["svals"]]
     sg, tg, pre = _obtain_grids(case)
-    res, _ = _run_link(case, vals, (sg, tg))
+    hist = [[None if v is None else fq(v) for v in h["vals"]] for h in (case.get("history") or [])]
+    res, _, hres = _run_link(case, vals, (sg, tg), hist)
     obs = {"res": res}
+    if hist:
+        obs["hist_res"] = hres
     if pre:
         obs["pre"] = pre
     if case.get("twin") and isinstance(case["smask"], list):
         vals2 = [(-v - 7 if m else v) for v, m in zip(vals, case["smask"])]
-        obs["twin"] = _run_link(case, vals2, (sg, tg))[0]       # the same grid objects in a second adapter
+        obs["twin"] = _run_link(case, vals2, (sg, tg), hist)[0]       # the same grid objects in a second adapter
     # the premise "flattened data pairs with data_points": data_points of the grid objects that were actually used
     # (after all of the above), against the harness's own locations
     obs["points_agree"] = [_grid_points_agree(sg, case["src"], fl["spts"]), _grid_points_agree(tg, case["tgt"], fl["tpts"])]
@@ -937,6 +1008,23 @@ def monitor(case, obs):
         if f:
             return "preliminary regridding with the grid object that is reused afterwards: " + f
     f = _monitor(case, obs)
+    if f is None and case.get("history") and obs["res"][0] == "ok":
+        hres = obs.get("hist_res", [])
+        if len(hres) != len(case["history"]):
+            return "an earlier publication was not delivered"
+        for i, (h, hr) in enumerate(zip(case["history"], hres)):
+            if hr[0] != "ok":
+                return f"publication {i} of {len(hres) + 1}: unexpected result form {hr[:2]}"
+            if any(v is None for v in h["vals"]):
+                continue        # a field with NaN is not affine: the property does not speak about it
+            sub = dict(case, svals=h["vals"], affine=h["affine"], history=None, twin=False)
+            so = {"res": hr, "inside": obs.get("inside"), "tab": obs.get("tab")}
+            f = _monitor(sub, so)
+            if f:
+                return f"publication {i} of {len(hres) + 1} through the same adapter: " + f
+    if f is not None and case.get("history"):
+        f = f"publication {len(case['history'])} of {len(case['history']) + 1} through the same adapter (earlier ones: " \
+            + ", ".join("with NaN" if any(v is None for v in h["vals"]) else "finite" for h in case["history"]) + "): " + f
     if f is None and not all(obs.get("points_agree", [True, True])):
         return "grid.data_points differs from the locations of the data elements (order/layout pairing premise)"
     return f
@@ -1050,6 +1138,11 @@ def distribution(cases, obss):
         "method": dict(Counter(c["method"] + ("+fill" if c["fill"] else "") for c in cases)),
         "kind": dict(Counter(c["kind"] for c in cases)),
         "via": dict(Counter(c["via"] for c in cases)),
+        "publications_through_one_adapter": dict(Counter(
+            (c["method"] + ("+fill" if c["fill"] else "") + ":" + (
+                "1" if not c.get("history") else
+                str(len(c["history"]) + 1) + ("/first with NaN" if any(v is None for v in c["history"][0]["vals"]) else "/finite")))
+            for c in cases)),
         "payload_dtype": dict(Counter(c["method"] + ":" + str(c.get("dtype") or "float64") for c in cases)),
         "grid_object_reuse": dict(Counter(("fresh" if not c.get("reuse") else
                                            c["reuse"]["mode"] + "/" + c["reuse"]["touch"] + "/" + "+".join(c["reuse"]["sides"]))
@@ -1089,6 +1182,11 @@ def shrink_candidates(case):
         c = dict(case)
         c.update(kw)
         return c
+    if case.get("history"):
+        yield upd(history=None)
+        if len(case["history"]) > 1:
+            yield upd(history=case["history"][:1])
+            yield upd(history=case["history"][1:])
     if case.get("dtype"):
         yield upd(dtype=None)
     if case.get("reuse"):
